@@ -6,7 +6,7 @@ from props import c01
 
 ID = "C14"
 THEOREMS = ["Bufr.C14.C14_compressed_column", "Bufr.C14.C14_slice_length", "Bufr.C14.C14_fixed_subsets",
-            "Bufr.C14.C14_merge_refuses", "Bufr.C14.C14_merge_places", "Bufr.C14.C14_ieee_column_const", "Bufr.C14.C14_ieee_column_listed"]
+            "Bufr.C14.C14_merge_refuses", "Bufr.C14.C14_merge_places", "Bufr.C14.C14_merge_clamps", "Bufr.C14.C14_ieee_column_const", "Bufr.C14.C14_ieee_column_listed"]
 RULE = ("datasets of the C01/C02 space with n = 1..8 subsets, encoded compressed and uncompressed; every (a, b) with "
         "1 <= a <= b <= n for small n (sampled for larger), plus out-of-range and inverted requests; merges of decoded "
         "subsets into built datasets of the same and of a different template at every destination position incl. beyond "
@@ -185,7 +185,8 @@ def oracle(scn, outs):
                 return "merge from a dataset of a different template was not refused (returned %s)" % r[0]
             return None
         if scn.meta["merge"] == "over":
-            return None      # asks for more subsets than the source holds after src_pos: outside the quantifier
+            # asks for more subsets than the source holds after src_pos: only what is there can be placed
+            nb = min(nb, n - sp)
         if int(r[0]) != nb:
             return "merge of %d subsets returned %s" % (nb, r[0])
         for i in range(nb):
